@@ -6,6 +6,7 @@ from ..cfg import CFG
 from ..core import (AnalysisError, assigned_targets, bound_args, body_nodes, call_name, dotted, is_self_attr, key_text, kwarg, names_in,
                     param_defaults, params, parent, stmts_of, unparse)
 from ..hdf5keys import Extractor, compatible, disc_by_attr
+from ..normal import inline_temps
 
 HIO = 'tenpy/tools/hdf5_io.py'
 
@@ -954,6 +955,7 @@ def run(prog, rep, tier):
     n = check_arity(prog, rep, tier)
     check_dispatch(prog, rep)
     check_from_hdf5_memo(prog, rep)
+    check_masked_compact(prog, rep)
     if check_ctor_roles(prog, rep) < 5:
         raise AnalysisError('HDF5-ctor-roles: fewer than 5 constructor arguments resolved')
     check_save_reduce(prog, rep)
@@ -1132,3 +1134,46 @@ def check_ctor_roles(prog, rep):
                                   'the saved one' % (attr, rkey[v.id], p, attr,
                                                      sorted(inf)[:8]), c.lineno)
     return n
+
+
+def check_masked_compact(prog, rep):
+    """HDF5-masked-compact: load_masked_array rebuilds the mask of the compact format as
+    `filled == fill_value`; save_masked_array may choose that format only when this equals the
+    mask for EVERY element (a universally quantified condition on the branch that writes
+    saved_mask = False)."""
+    from ..pattern import P, guards_of, pmatch
+    m = prog.module(HIO)
+    sv, ld = m.func('Hdf5Saver.save_masked_array'), m.func('Hdf5Loader.load_masked_array')
+    rep.unit(m)
+    # reader: how the mask is recomputed
+    rd = [c for c in body_nodes(ld) if isinstance(c, ast.Call) and
+          dotted(c.func) in ('np.ma.masked_equal', 'numpy.ma.masked_equal')]
+    nf = inline_temps(sv)
+    compact = [st for st in stmts_of(nf) if isinstance(st, ast.Assign) and isinstance(
+        st.targets[0], ast.Subscript) and isinstance(st.targets[0].slice, ast.Constant) and
+        st.targets[0].slice.value == 'saved_mask' and isinstance(st.value, ast.Constant) and
+        st.value.value is False]
+    if len(rd) != 1 or len(compact) != 1:
+        raise AnalysisError('masked arrays: compact format reader / writer branch not found')
+    gs = guards_of(nf, compact[0])
+    forall = [(P('np.all($$a == $$b)'), True), (P('($$a == $$b).all()'), True),
+              (P('np.array_equal($$a, $$b)'), True), (P('np.any($$a != $$b)'), False),
+              (P('($$a != $$b).any()'), False)]
+    ok = False
+    for text, pol, e in gs:
+        for pat, want in forall:
+            env = pmatch(pat, e)
+            if env and pol == want:
+                sides = sorted([unparse(env['$$a']), unparse(env['$$b'])])
+                if any('.mask' in s_ for s_ in sides) and any('fill_value' in s_ and '==' in s_
+                                                              for s_ in sides):
+                    ok = True
+    rep.instance('HDF5-masked-compact', {'reader': unparse(rd[0])[:80],
+                                         'writer_condition': [(t, p) for t, p, _ in gs]})
+    if not ok:
+        rep.violation('HDF5-masked-compact', m, 'Hdf5Saver.save_masked_array', 'not-forall',
+                      'the compact format (data only; the reader recomputes the mask as `filled '
+                      '== fill_value`) is chosen under %s, which does not state that this '
+                      'equals the mask for every element: an unmasked element equal to '
+                      'fill_value comes back masked' % [(t, p) for t, p, _ in gs],
+                      compact[0].lineno)
